@@ -455,7 +455,7 @@ def sage_stream(ctx, rng, count):
     return out
 
 
-def settings_stream(ctx, rng, count):
+def settings_stream(ctx, rng, count, given=None):
     """construct a SAGE constraint, flip a global default, compile: the compiled system must be that of a constraint
     constructed AND compiled under the original defaults (implementation-level; the row-level model is C01/C02)"""
     import sageopt.coniclifts as cl
@@ -466,14 +466,17 @@ def settings_stream(ctx, rng, count):
     saved = dict(sc.SETTINGS)
     problems = []
     try:
-        for t in range(count):
-            m, n = rng.randint(3, 5), rng.randint(1, 2)
-            alpha = np.array([[float(rng.randint(0, 3)) for _ in range(n)] for _ in range(m)])
-            alpha = np.unique(alpha, axis=0)
-            if alpha.shape[0] < 3:
-                continue
+        for t in range(count if given is None else len(given)):
+            if given is None:
+                m, n = rng.randint(3, 5), rng.randint(1, 2)
+                alpha = np.array([[float(rng.randint(0, 3)) for _ in range(n)] for _ in range(m)])
+                alpha = np.unique(alpha, axis=0)
+                if alpha.shape[0] < 3:
+                    continue
+                key = rng.choice(['sum_age_force_equality', 'compact_dual'])
+            else:
+                alpha, key = np.array(given[t][0], dtype=float), given[t][1]
             m = alpha.shape[0]
-            key = rng.choice(['sum_age_force_equality', 'compact_dual'])
             primal = key == 'sum_age_force_equality'
 
             def make(tag):
@@ -595,6 +598,11 @@ def replay(obj):
         return 1 if probs else 0
     if 'interleave_seed' in r:
         probs = _interleave_history(r['interleave_seed'])
+        for what, _ in probs:
+            print('  ', what)
+        return 1 if probs else 0
+    if 'flipped' in r and 'alpha' in r:
+        probs = settings_stream(common.RecCtx(), random.Random(0), 0, given=[(r['alpha'], r['flipped'])])
         for what, _ in probs:
             print('  ', what)
         return 1 if probs else 0
